@@ -6,6 +6,7 @@ CONSTANTS
   MethodNames = {"f", "__ne__"}
   SelfKinds = {"pk", "po", "none"}
   BaseNaming = "pos"
+  FixedMemberWithoutSelf = TRUE
   RMutant = "none"
   MaxExpected = 1
   MaxActual = 2
